@@ -178,7 +178,7 @@ def run(ctx):
         "incl. empty ones x control-frame sets {none, ping, pong, ping+pong, ...} in every gap, plus random sequences of "
         "1-3 (4) messages with up to 2 (3) control frames per gap and ill-formed text; each with per-fragment delivery off "
         "and on and with validation on and off; deliveries compared with the extracted Spec.reassemble / per_fragment; "
-        "whole line compared with the extracted model. non-trivial = more than one data frame",
+        "whole line compared with the extracted model; the iterator interface against successive recv() calls. non-trivial = more than one data frame",
         what_is_proved="C04_reassembly, C04_fire over all legal frame sequences")
 
 
